@@ -51,6 +51,28 @@ type Point struct {
 	Desc           string `json:",omitempty"` // only with Trace: what every live thread waits for
 }
 
+// OnPoint, when set, is called at every scheduling point: all managed goroutines are parked in front of a lock (or have
+// finished), so the callback may read the state of the core without locks. ran is the id of the thread that executed the
+// step since the previous point (-1 at the first point).
+var OnPoint func(ran int)
+
+// Where returns, while a Run with Trace is at a scheduling point, the call stack (innermost first) at which the thread is
+// parked; "" without Trace, for an unknown thread or one that has finished.
+func Where(id int) string {
+	s := current
+	if s == nil {
+		return ""
+	}
+	s.mu.Lock()
+	defer s.mu.Unlock()
+	if id < 0 || id >= len(s.threads) || s.threads[id].done {
+		return ""
+	}
+	return s.threads[id].where
+}
+
+var current *Sched
+
 // Trace makes Run describe every scheduling point (debugging aid for nondeterminism of the harness).
 var Trace = false
 
@@ -198,6 +220,8 @@ var ExtraGoroutines = 0
 func Run(bodies []func(), names []string, prefix []int, limit time.Duration) *Result {
 	s := &Sched{byGid: map[uint64]*thread{}, mutexes: map[unsafe.Pointer]*mstate{}, parkedCh: make(chan struct{}, 64), adopt: true}
 	res := &Result{}
+	current = s
+	defer func() { current = nil }()
 	base := runtime.NumGoroutine()
 	var wg sync.WaitGroup
 	for i, body := range bodies {
@@ -324,6 +348,9 @@ func Run(bodies []func(), names []string, prefix []int, limit time.Duration) *Re
 		// drain park notifications
 		for len(s.parkedCh) > 0 {
 			<-s.parkedCh
+		}
+		if OnPoint != nil {
+			OnPoint(running)
 		}
 		s.mu.Lock()
 		var en []int
